@@ -713,7 +713,8 @@ Section TotalHistories.
         apply (IH (n' :: c) Hok) with (p := p); [|exact Hin]. intros m [<-|Hm]; [apply (node_at_lt t n' nd En)|apply Hc, Hm]. }
     specialize (Hn [] ops Hh (fun m (F : In m []) => match F with end)).
     specialize (H (fun m (F : In m []) => match F with end) (fun m (F : In m []) => match F with end) Hh).
-    unfold hist_agrees in H.
+    unfold hist_agrees in H. clear Hh.
+    remember (snd (run_ops exactQ true t empty_styles ops)) as results eqn:Eres. clear Eres.
     revert Hv Hn. induction H as [|o r ops' rs Hor Hrest IH]; intros Hv Hn; constructor.
     - destruct o as [n p|n]; [|exact Hor].
       destruct (get_total t WT n p (Hn n p (or_introl eq_refl)) (Hv n p (or_introl eq_refl))) as (v & Ev & _).
